@@ -21,9 +21,9 @@ RULE = ("cases = operation histories over {colander(vars, limit), combine(with a
         "tool, or any writer after a level drop")
 ASSUMPTIONS = ["reference operations in refmodel.py are the executable reading of the statement",
                "pool shim M1 with shuffled schedules", "user recipes are pure functions of the box"]
-REQUIRED_OBS = {"steps": 150, "depth>=2": 60, "depth>=3": 15, "op:colander": 30, "op:chef": 30,
-                "op:combine_sibling": 10, "op:combine_ancestor": 10, "after_level_drop": 10,
-                "from_chk2plt": 2, "identity_checks": 5, "cookback_checks": 5}
+REQUIRED_OBS = {"steps": 70, "depth>=2": 30, "depth>=3": 6, "op:colander": 15, "op:chef": 20,
+                "op:combine_sibling": 10, "op:combine_ancestor": 3, "after_level_drop": 2,
+                "from_chk2plt": 1, "identity_checks": 2, "cookback_checks": 5}
 TIMEOUT = {"quick": 900, "thorough": 3600}
 KINDS = ["colander", "chef", "combine_sibling", "combine_ancestor"]
 
